@@ -812,6 +812,14 @@ fn configure_build(
         if let Some(build) = &module.build {
             // module has custom build rule
 
+            // a build statement needs at least one output (ninja refuses `build: RULE`)
+            if build.out.as_ref().map_or(true, |out| out.is_empty()) {
+                return Err(anyhow!(
+                    "module \"{}\": custom build has no \"out\"",
+                    module.name
+                ));
+            }
+
             // get build command list, make one large shell command by joining
             // with " && ".
             // e.g.,
